@@ -35,6 +35,12 @@ def check(run):
         run.guard("C18.2.gate-provenance", cfg + "/merge", lambda: rule_mask_merge(run, F, cfg))
         run.guard("C18.4.escape-table", cfg, lambda: rule_escape(run, F, cfg))
         run.guard("C18.5.invocation", cfg, lambda: rule_invocation(run, F, cfg))
+        from . import wire_keys as _wk
+        run.guard("C18.7.resource-wire-keys", cfg, lambda: run.floor(
+            "C18.7.resource-wire-keys", f"resource keys / variants compared [{cfg}]",
+            _wk.rule_keys(run, "C18.7.resource-wire-keys", F, cfg, _wk.RESOURCE, _wk.RESOURCE_VARIANTS,
+                          "A resource list that spells the key as before would otherwise load with the field defaulted: "
+                          "`permission` 0 means the scriptlet needs no permission at all"), 14))
         from analysis import a7 as _a7
         from . import a7_common as _a7c
         run.guard("C18.6.argument-splitting", cfg, lambda: _a7.check_cone(
@@ -45,7 +51,7 @@ def check(run):
         run.guard("C18.via.C16.3.populate-before-prune", cfg, lambda: _C16.rule_order(b, F, cfg))
         run.guard("C18.via.C16.8.independent-injections", cfg, lambda: _C16.rule_independent_injections(run.borrow("C16", why="a scriptlet another list may not use must not suppress the others"), F, cfg))
         from . import C08 as _C08
-        b8 = run.borrow("C08", only=r"stores-unconditional|restores-unconditional|accumulating", why="the blanket scriptlet exception must survive serialization")
+        b8 = run.borrow("C08", only=r"stores-unconditional|restores-unconditional|accumulating|visits-every-element", why="the blanket scriptlet exception must survive serialization")
         run.guard("C18.via.C08.3.legacy-bijection", cfg, lambda: _C08.rule_legacy(b8, F, cfg))
 
 
